@@ -113,10 +113,33 @@ def roundtrip(ctx, m, spec, src, aromatic_form):
             field = '/' + kind
             if _first_of_later_component(order, m, key, d[0]):
                 field += '/first-atom-of-later-component'
+            elif kind == 'CT' and _ring_diene(m, key, d):
+                field += '/ring-diene-writer'
         ctx.violation('roundtrip-%s-differs%s' % (part, field),
                       '%s spec=%r text=%s: %s' % (src, spec, text, '; '.join(d[:3])),
                       {'src': src, 'spec': spec, 'text': text, 'form': aromatic_form, 'diff': d[:3]})
         return False
+    return True
+
+
+def _ring_diene(m, key, difflines):
+    """classifier: every differing cis/trans bond is a ring bond conjugated with another labelled one"""
+    inv = {v: n for n, v in key.items()}
+    rd = T.ring_diene_ct(m)
+    if not rd:
+        return False
+    import re
+    for line in difflines:
+        if not line.startswith("stereo[('CT'"):
+            return False
+    # the diff lines print keys as "a-b"
+    for line in difflines:
+        mm = re.search(r"frozenset\(\{(\d+), (\d+)\}\)", line)
+        if not mm:
+            return False
+        pair = frozenset((inv.get(int(mm.group(1))), inv.get(int(mm.group(2)))))
+        if pair not in rd:
+            return False
     return True
 
 
@@ -209,7 +232,8 @@ def injectivity_stereo(ctx, m, src, rng):
         n += 1
         ctx.evaluations += 1
         if s in strings and strings[s] != bits:
-            ctx.violation('canonical-string-collision/stereoisomers', '%s: label sets %s and %s give %s'
+            ctx.violation('canonical-string-collision/stereoisomers' + ('/ring-diene-writer' if T.ring_diene_ct(v) else ''),
+                          '%s: label sets %s and %s give %s'
                           % (src, bin(strings[s]), bin(bits), s), {'src': src, 'smiles': str(m), 'bits': [strings[s], bits]})
         strings[s] = bits
         # mirror image / E-Z isomers never equal
